@@ -63,6 +63,8 @@ func checkC04(c *Ctx) {
 	enumTables(c, "R04m")
 	r.Rule("R04n", "timestamp_format decoders keep sub-second precision", 2)
 	timestampDecoderPrecision(c, "R04n")
+	r.Rule("R04o", "timestamp_format encoders format instants in UTC (the zone the decoder parses in)", 2)
+	timestampEncoderUTC(c, "R04o")
 
 	type siteAgg struct {
 		pos  string
